@@ -1686,3 +1686,65 @@ func c01NextIterTargets(body *ssa.Function) []ssa.Instruction {
 	}
 	return out
 }
+
+// c01DeferredOverwrite: fn has a named error result that a deferred closure assigns without first finding it nil
+// (defer func() { err = f() }()): whatever error the body returned is replaced.  Returns a description, or "".
+func c01DeferredOverwrite(fn *ssa.Function) string {
+	errIdx := ErrResultIndex(fn.Signature)
+	if errIdx < 0 {
+		return ""
+	}
+	cells := map[ssa.Value]bool{}
+	for _, r := range Returns(fn) {
+		if a := cellOf(r.Results[errIdx]); a != nil {
+			cells[a] = true
+		}
+	}
+	if len(cells) == 0 {
+		return ""
+	}
+	out := ""
+	AllInstrs(fn, func(in ssa.Instruction) {
+		d, ok := in.(*ssa.Defer)
+		if !ok {
+			return
+		}
+		mc, ok := d.Call.Value.(*ssa.MakeClosure)
+		if !ok {
+			return
+		}
+		g := mc.Fn.(*ssa.Function)
+		for i, b := range mc.Bindings {
+			if !cells[b] {
+				continue
+			}
+			fv := g.FreeVars[i]
+			loads := map[ssa.Value]bool{}
+			var stores []*ssa.Store
+			for _, r := range *fv.Referrers() {
+				switch x := r.(type) {
+				case *ssa.UnOp:
+					if x.Op == token.MUL {
+						loads[x] = true
+					}
+				case *ssa.Store:
+					if x.Addr == ssa.Value(fv) {
+						stores = append(stores, x)
+					}
+				}
+			}
+			nilE, _, _ := NilTests(g, loads)
+			for _, st := range stores {
+				// keeping a non-nil error (err = errors.Join(err, x), or assigning only when err == nil) is fine
+				if len(nilE) > 0 && MustPass(st, newCut().Edges(nilE...)) {
+					continue
+				}
+				if c01Slice(st.Val, func(x ssa.Value) bool { return loads[x] }) {
+					continue
+				}
+				out = "; a deferred closure assigns the named error result unconditionally, replacing the error the body returned"
+			}
+		}
+	})
+	return out
+}
